@@ -248,6 +248,18 @@ example : verdict (exec [] (unixConnect true) 100 ⟨[.ok 5, .err 11, .err 4, .o
   decide +kernel
 example : verdict (exec [] (unixConnect true) 100 ⟨[.ok 5, .err 11, .ok 1, .err 111, .ok 0], [true], none⟩) = ⟨true, false, 0, [], [], [], []⟩ := by
   decide +kernel
+/-- io_uring: a `Drop` that releases nothing (what a build makes of clean-up calls placed inside `debug_assert!` when
+    debug assertions are off) is rejected, and the machine shows the ring fd left open; the real one is clean on the
+    two-mapping and the three-mapping ring, whatever `munmap` / `close` answer; set-up whose last `mmap` fails closes
+    the ring fd -/
+example : chk [0] (.ret true []) = false := by decide
+example : (verdict (exec [0] (.ret true []) 10 ⟨[], [], none⟩)).leaked = [0] := by decide
+example : chk [0] (munmapN 2 (ok [])) = false := by decide
+example : verdict (exec [0] ioUringDrop 20 ⟨[.ok 0, .err 22, .err 5], [true], none⟩) = ⟨true, true, 0, [], [], [], []⟩ := by decide +kernel
+example : verdict (exec [0] ioUringDrop 20 ⟨[.ok 0, .ok 0, .ok 0, .ok 0], [false], none⟩) = ⟨true, true, 0, [], [], [], []⟩ := by decide +kernel
+example : verdict (exec [] ioUringSetup 20 ⟨[.ok 5, .ok 4096, .ok 8192, .err 12, .ok 0, .ok 0, .ok 0], [false], none⟩)
+    = ⟨true, false, 0, [], [], [], []⟩ := by decide +kernel
+example : verdict (exec [] ioUringSetup 20 ⟨[.ok 5, .ok 4096, .ok 8192], [true], none⟩) = ⟨true, true, 1, [], [], [], []⟩ := by decide +kernel
 /-- the spawn child of the current code never returns: dup2 failing ends in `exits` -/
 example : (exec [] (spawn true allPipe [] 0) 100 ⟨[.ok 0, .ok 0, .ok 0, .ok 0, .ok 77], [], some ([.ok 0, .err 9, .ok 8], [])⟩).out = .exits := by
   decide +kernel
